@@ -331,15 +331,15 @@ class Report:
         (EVIDENCE / f"{self.pid}.json").write_text(json.dumps(ev, indent=1, default=str))
         for k in self.known_hits:
             print(k)
-        if self.machinery_errors:
-            for m in self.machinery_errors:
-                print(f"MACHINERY-ERROR property={self.pid} {m}", file=sys.stderr)
-            return 2
+        for m in self.machinery_errors:
+            print(f"MACHINERY-ERROR property={self.pid} {m}", file=sys.stderr)
         if self.violations:
             for v in self.violations[:20]:
                 print(f"VIOLATION property={self.pid} replay={v['replay']}")
                 print(f"  {v['what']}")
             return 1
+        if self.machinery_errors:
+            return 2
         print(f"OK property={self.pid} tier={self.tier} states={self.states} "
               f"traces={self.traces} wall={ev['wall_s']}s")
         return 0
